@@ -62,7 +62,7 @@ def run(ctx):
         ngraphs = 3 if ctx.tier == "quick" else 8
         graphs = []
         for i in range(ngraphs):
-            g = gen.gen_graph(rng)
+            g = gen.gen_graph(rng, bnodes=(i % 3 != 2), ninst=(None if i % 3 != 2 else rng.randint(5, 8)))      # the stem graph: IRIs only (a blank node among the instances means no stem)
             cfg = gen.gen_cfg(rng, g, presentation=False, allow_cap=False, allow_ignore=False)
             cfg['report'] = 'mixed'
             cfg['disable_comments'] = False
@@ -70,10 +70,10 @@ def run(ctx):
                 cfg['examples'] = 'all'
             if i % 3 == 2:
                 cfg['detect_min_iri'] = True
-                # instances spread over hosts that share their first letters (and one over another scheme): the common stem of a class is then
+                # instances spread over hosts that share their first letters: the common stem of a class is then
                 # something like `http://ex`, cut back to `http://` - a value on which cutting back once and twice differ if the rule is applied to
                 # the wrong string; the stored stems are re-used by every later call
-                hosts = ['http://example.org/', 'http://exotic.org/', 'http://exotic.org/', 'http://excel.example/', 'https://example.org/']
+                hosts = ['http://example.org/', 'http://exotic.org/', 'http://excel.example/']
                 ren = lambda t: ('I', hosts[int(t[1][len(EX) + 1:]) % len(hosts)] + t[1][len(EX):]) if t[0] == 'I' and t[1].startswith(EX + 'n') and t[1][len(EX) + 1:].isdigit() else t
                 g = [(ren(s_), p_, ren(o_)) for s_, p_, o_ in g]
                 cfg['all_compliant'] = True
